@@ -21,6 +21,23 @@ CHECKS = {
               "the dims. The oracle is the budget predicate of the property itself, summed independently. No absence proof."),
         note="Trusted: the harness's construction of the states dict in the layout of the recorded checkpoint (reallocation_test_data).",
         design="DESIGN.md section 3, C17"),
+    "C12": dict(
+        category="exploration",
+        technique="property-based testing of SM3 over generated gradient histories against an exact float64 per-entry accumulator and the SM3-II recursion (NumPy)",
+        text=("Generated-input search over (shape tree, beta1, beta2, weight decay, normalisation, epsilon, lr schedule, history): after every "
+              "step the cover inequality, monotonicity at beta2=1, the step-size bound against diagonal AdaGrad/RMSProp, rank-1 exactness "
+              "and the SM3-II recursion are checked in float64. ~2.5e3 histories / 1.4e4 steps quick. No absence proof."),
+        note="Trusted: NumPy float64 reference; jax_enable_x64 run of the real optimizer (float64 accumulators).",
+        design="DESIGN.md section 3, C12"),
+    "C16": dict(
+        category="exploration",
+        technique="property-based testing of the OCO init/update pairs over generated gradient sequences against closed forms, the FD bracket on an exact covariance, and exact full-matrix AdaGrad (NumPy float64)",
+        text=("Generated-input search over (algorithm, shape, sketch size, delta, lr, gradient sequence): OGD/AdaGrad closed forms, last "
+              "sketch row zero, orthonormal directions, two-sided FD bracket against the exact sum of scaled outer products with the "
+              "escaped mass recomputed independently, alpha bookkeeping, and S-AdaGrad == full-matrix AdaGrad on lossless histories. "
+              "~6e3 sequences / 4e4 steps quick. No absence proof."),
+        note="Trusted: NumPy float64 linear algebra (svd/eigh); x64 run of the real functions, eagerly and under jit, on copies of the state dict.",
+        design="DESIGN.md section 3, C16"),
 }
 
 NOT_YET = {}
